@@ -33,9 +33,11 @@ ASSUMPTIONS = [
 FLOORS = {
     "quick": {"readbacks": 28000, "views:reloaded": 5000, "views:disabled": 7000,
               "multi-condition": 3000, "views:update": 3000, "names-as-bytes": 1500,
+              "read-backs-after-a-refused-rename": 4000,
               "custom-marker-prefixes": 3000},
     "thorough": {"readbacks": 1500000, "views:reloaded": 300000, "views:disabled": 300000,
-                 "multi-condition": 100000, "views:update": 100000, "names-as-bytes": 70000},
+                 "multi-condition": 100000, "views:update": 100000, "names-as-bytes": 70000,
+                 "read-backs-after-a-refused-rename": 150000},
 }
 SHARD_TIMEOUT = {"quick": 600, "thorough": 3000}
 
@@ -98,6 +100,9 @@ def nf(x):
     if isinstance(x, (int, float)) and not isinstance(x, bool):
         return str(x)
     return x
+
+
+REFUSED = [0]
 
 
 def views(d):
@@ -184,6 +189,22 @@ def evaluate(d):
     # must be what is read back, under the new name, disabled or not
     upd = getattr(d, "_update", None)
     if upd is not None:
+        # an update the set refuses (renaming onto the name of another filter) leaves what is
+        # read back under the old name as it was, enabled or disabled
+        other = "another filter \u00a7"
+        if fl.call(fs.addfilter, other, [("Subject", ":is", "o")], [("keep",)])[0] == "ret":
+            for state in ("enabled", "disabled"):
+                if state == "disabled":
+                    fl.call(fs.disablefilter, f)
+                r0 = fl.call(fs.updatefilter, f, other, list(upd.conditions), list(upd.actions),
+                             upd.matchtype)
+                if r0[0] == "exc" or r0 == ("ret", False):
+                    REFUSED[0] += 1
+                    for what, how, detail in compare(d, read(fs, f)):
+                        res.append(("after-a-refused-rename-" + state, what, how, detail))
+                if state == "disabled":
+                    fl.call(fs.enablefilter, f)
+            fl.call(fs.removefilter, other)
         fl.call(fs.disablefilter, f)
         r2 = fl.call(fs.updatefilter, f, f, list(upd.conditions), list(upd.actions),
                      upd.matchtype)
@@ -269,6 +290,7 @@ def run_shard(tier, shard, res: Result):
             d._prefixes = rng.choice(PREFIXES[1:])
             res.count("custom-marker-prefixes")
         built, viols, extra = evaluate(d)
+        res.counters["read-backs-after-a-refused-rename"] = REFUSED[0]
         wit = {"conditions": d.conditions, "actions": d.actions, "matchtype": d.matchtype,
                "names": list(d._names), "prefixes": list(getattr(d, "_prefixes", None) or ())}
         if getattr(d, "_update", None) is not None:
